@@ -5,6 +5,7 @@ import re
 from hypothesis import assume, strategies as st
 
 from vlib import jasm_io
+from vlib.objsrc import contain
 from vlib.elfw import disassemble_object
 from vlib.gen_bytes import build_object, objects
 from vlib.gen_listing import att_view
@@ -27,7 +28,7 @@ RULE = (
 )
 ASSUMPTIONS = ["the CLI logs to stderr at INFO level by default (as shipped); 'Matched address: X' lines carry the API's list elements verbatim"]
 FLOORS = {"macro-files-not-in-alphabetical-order": 0.03, "kind=match": 0.5, "kind=failing": 0.08, "kind=usage": 0.03, "opt=all-matches": 0.25, "opt=only-address": 0.25, "macro-files": 0.15, "binary": 0.08}
-LINE = re.compile(r" - INFO - Matched address: (.*)$")
+LINE = re.compile(r"Matched address: (.*)$")  # any line, whatever logger format it is printed in: the statement counts lines
 
 
 def budget(tier):
@@ -63,6 +64,14 @@ def cases(draw):
         c.update({"listing": L, "pattern": factored, "macros_in_file": in_file, "macro_files": files, "file_names": names})
     else:
         c.update({"obj": draw(objects(max_sections=3)), "pick": draw(st.integers(0, 10**6))})
+    if src == "macro-files" and kind == "match" and draw(st.integers(0, 2)) == 0:
+        # everything named relative to the working directory, the pattern in a sub-directory, and next to the pattern a decoy with the
+        # name of each macro file but other definitions: the command must read the files the API reads for the same strings
+        c["relpaths"] = draw(st.sampled_from(["pattern-in-subdir+decoy", "pattern-in-subdir+decoy", "pattern-in-subdir", "all-in-cwd"]))
+    if src in ("broad", "macro-files") and draw(st.integers(0, 4)) == 0:
+        c["double_listing"] = True  # the listing of an archive / of two objects: two `file format` title lines, addresses restart
+    if src == "binary" and draw(st.integers(0, 2)) == 0:
+        c["container"] = draw(st.sampled_from(["ar-two", "ar-two", "ar", "thin-ar", "coff"]))
     if kind == "failing":
         c["failure"] = draw(st.sampled_from(["input-missing", "binary-on-text", "config-type", "undefined-macro", "rule-missing", "empty-group", "objdump-absent", "objdump-absent"]))
     return c
@@ -118,9 +127,38 @@ def evaluate(case):
         mns = [m for m in mns if m.isalpha()]
         pattern = [mns[case["pick"] % len(mns)]] if mns else ["ret"]
         ev.tags.append("binary")
+    if case.get("double_listing") and not binary:
+        with open(input_path) as f_:
+            one = f_.read()
+        with open(input_path, "w") as f_:
+            f_.write(one + one)
+        ev.tags.append("two-title-lines")
+    if binary and case.get("container"):
+        input_path, ctag = contain(sc, input_path, case)
+        ev.tags.append(ctag)
     mn_full, op_full = case.get("flags", [False, False])
     doc = jasm_io.make_doc(pattern, mn_full or None, op_full or None, macros=doc_macros)
     rule_path = sc.write("c20_rule.yaml", jasm_io.rule_text(doc))
+    api_cwd = None
+    if case.get("relpaths") and case["src"] == "macro-files" and kind == "match":
+        rel = case["relpaths"]
+        sub = "rules" if rel.startswith("pattern-in-subdir") else "."
+        os.makedirs(os.path.join(cwd, sub), exist_ok=True)
+
+        def put(relname, data):
+            with open(os.path.join(cwd, relname), "w") as f_:
+                f_.write(data)
+            return relname
+
+        rule_path = put(os.path.join(sub, "rule.yaml") if sub != "." else "rule.yaml", jasm_io.rule_text(doc))
+        with open(input_path) as f_:
+            input_path = put("listing.s", f_.read())
+        macros = [put(f"{nm}_macros.yaml", jasm_io.dump_yaml({"macros": f})) for nm, f in zip(case["file_names"], case["macro_files"])]
+        if rel.endswith("+decoy"):
+            for nm, f in zip(case["file_names"], case["macro_files"]):
+                put(os.path.join(sub, f"{nm}_macros.yaml"), jasm_io.dump_yaml({"macros": [dict(m_, pattern="zzqq") for m_ in f]}))
+        api_cwd = cwd
+        ev.tags.append("relpaths=" + rel)
     if kind == "failing":
         f = case["failure"]
         ev.tags.append("failure=" + f)
@@ -152,9 +190,13 @@ def evaluate(case):
     saved_path = os.environ.get("PATH")
     if path_override is not None:
         os.environ["PATH"] = path_override
+    saved_cwd = os.getcwd()
+    if api_cwd is not None:
+        os.chdir(api_cwd)  # the same strings, resolved from the same working directory as the command's
     try:
         api = _api(rule_path, input_path, opts, macros, binary)
     finally:
+        os.chdir(saved_cwd)
         if path_override is not None:
             os.environ["PATH"] = saved_path
     if api[0] == "inconclusive":
